@@ -463,10 +463,14 @@ func c10Run(r *core.Run) {
 			{"hdr-two-signers", func(h map[string][]string, key string) { h[key] = []string{world.IssuerChainHeader(w.A.Tcb, w.A.Tcb)} }},
 			{"hdr-intermediate-and-signer", func(h map[string][]string, key string) { h[key] = []string{world.IssuerChainHeader(w.A.Plat, w.A.Tcb)} }},
 			{"hdr-leaf-and-intermediate", func(h map[string][]string, key string) { h[key] = []string{world.IssuerChainHeader(w.P.PCK, w.A.Plat)} }},
-			{"hdr-two-roots", func(h map[string][]string, key string) { h[key] = []string{world.IssuerChainHeader(w.A.Root, w.A.Root)} }},
+			{"hdr-two-roots", func(h map[string][]string, key string) {
+				h[key] = []string{world.IssuerChainHeader(w.A.Root, w.A.Root)}
+			}},
 			{"hdr-root-then-signer", func(h map[string][]string, key string) { h[key] = []string{world.IssuerChainHeader(w.A.Root, w.A.Tcb)} }},
 			{"hdr-one-certificate", func(h map[string][]string, key string) { h[key] = []string{world.IssuerChainHeader(w.A.Tcb)} }},
-			{"hdr-three-certificates", func(h map[string][]string, key string) { h[key] = []string{world.IssuerChainHeader(w.A.Tcb, w.A.Plat, w.A.Root)} }},
+			{"hdr-three-certificates", func(h map[string][]string, key string) {
+				h[key] = []string{world.IssuerChainHeader(w.A.Tcb, w.A.Plat, w.A.Root)}
+			}},
 		}
 		for _, route := range routes {
 			resps := append(c10Responses(t, w), struct {
